@@ -527,3 +527,35 @@ func lemma_C05_strictRoundtrip(bits uint64) bool {
 	}
 	return q.Size() == len(b) && len(q.properties) == 1 && spec_isNumber(q.properties[0].value, bits)
 }
+
+// every prefix of a well-formed object encoding either fails to decode or yields a value no longer than the prefix
+// (supports the assumed clause "a decoded object is no longer than its input"; bounded: one object, all 13 cuts)
+//@ unroll lemma_C05_objectTruncated 0 16
+//@ bounded lemma_C05_objectTruncated 4
+//@ lemma C05.object.truncated.bounded C07.object.truncated.bounded
+func lemma_C05_objectTruncated(k, x byte) bool {
+	b := []byte{3, 0, 1, k, 1, x, 0, 1, k, 5, 0, 0, 9}
+	for cut := 0; cut <= len(b); cut++ {
+		q := NewObject()
+		if err := q.UnmarshalBinary(b[:cut]); err == nil && (cut != len(b) || q.Size() != cut) {
+			return false
+		}
+	}
+	return true
+}
+
+// AMF0 2.5: a property name may be the empty string; only an empty name FOLLOWED BY the end marker 09 ends the object
+//@ bounded lemma_C06_emptyName 4
+//@ lemma C06.object.empty-name.bounded C05.object.empty-name.bounded
+func lemma_C06_emptyName(flag byte) bool {
+	b := []byte{3, 0, 0, 1, flag, 0, 1, 'a', 5, 0, 0, 9}
+	q := NewObject()
+	if err := q.UnmarshalBinary(b); err != nil {
+		return false
+	}
+	if q.Size() != len(b) || len(q.properties) != 2 || len(q.properties[0].key) != 0 || !spec_isBoolean(q.properties[0].value, flag != 0) {
+		return false
+	}
+	b2, err := q.MarshalBinary()
+	return err == nil && len(b2) == len(b) && (flag > 1 || prim_eqbytes(b2, b)) // (a foreign true byte other than 1 is re-written as 1)
+}
